@@ -424,12 +424,17 @@ class Interp:
 
     def block(self, stmts, env, rets):
         """Executes stmts in env (mutated).  Returns 'fall' | 'return' | 'continue' | 'break' | 'raise' for the path(s): when the
-        paths disagree the environment is the join of the falling ones and 'fall' is returned if any falls."""
-        for s in stmts:
-            r = self.stmt(s, env, rets)
-            if r != "fall":
-                return r
-        return "fall"
+        paths disagree the environment is the join of the falling ones and 'fall' is returned if any falls.  A guard whose other
+        branch left the block (`if c: continue`) stays in force for the rest of the block."""
+        g_entry = self.guards
+        try:
+            for s in stmts:
+                r = self.stmt(s, env, rets)
+                if r != "fall":
+                    return r
+            return "fall"
+        finally:
+            self.guards = g_entry
 
     def stmt(self, s, env, rets):
         if isinstance(s, ast.Assign):
@@ -478,7 +483,10 @@ class Interp:
             self.guards = g0 + [(s.test, False, snap)]
             r2 = self.block(s.orelse, e2, rets)
             self.guards = g0
-            return self.merge(env, [(r1, e1), (r2, e2)])
+            r = self.merge(env, [(r1, e1), (r2, e2)])
+            if r == "fall" and (r1 == "fall") != (r2 == "fall"):
+                self.guards = g0 + [(s.test, r1 == "fall", snap)]     # only one branch continues: its guard persists
+            return r
         if isinstance(s, (ast.For, ast.AsyncFor)):
             it = self.ev(s.iter, env)
             if it[0] == "builtin" and it[1] in ("enumerate",) and it[2] and it[2][0][0] == "tuple":
@@ -649,8 +657,12 @@ def judge_etree(store, kind, tag, allowed, other_tags, interp):
         if g[0] in ("loop", "except"):
             continue
         test, _pos, snap = g
+        none_tested = {id(c.left) for c in ast.walk(test) if isinstance(c, ast.Compare) and len(c.ops) == 1 and isinstance(c.ops[0], (ast.Is, ast.IsNot))
+                       and isinstance(c.comparators[0], ast.Constant) and c.comparators[0].value is None}
         for nm in [n for n in ast.walk(test) if isinstance(n, ast.Name)]:
             t = interp.ev(nm, dict(snap))
+            if id(nm) in none_tested and t[:1] == ("param",):
+                continue                              # presence test of a container handed in by the caller
             if mentions(t, lambda x: x[:1] == ("const",) and isinstance(x[1], str) and x[1] in other_tags):
                 verdicts.append(("bad", f"stored under a test about another property ({ast.unparse(test)[:50]})"))
             elif (t[:1] == ("param",) and nm.id not in ("self", "cls")) or mentions(t, lambda x: x[:1] == ("?",)):
